@@ -77,3 +77,50 @@ package chk
 //@ loop 3 invariant allIn(byNHID, res, len(res)) && allIn(byNHGID, res, len(res)) && allIn(byMPLSLabel, res, len(res)) && allInS(byIPv4Prefix, res, len(res)) && allInS(byIPv6Prefix, res, len(res))
 //@ assigns fatal
 //@ props C17
+
+// satisfies: response entry a is the entry the want w names (same network instance, kind and key).
+//@ pred satisfies(a *spb.AFTEntry, w *spb.AFTEntry) = a != nil && a.NetworkInstance == w.GetNetworkInstance() && (
+//@      (istype(w.Entry, *spb.AFTEntry_Ipv4) && istype(a.Entry, *spb.AFTEntry_Ipv4) && a.GetIpv4().GetPrefix() == w.GetIpv4().GetPrefix())
+//@   || (istype(w.Entry, *spb.AFTEntry_Ipv6) && istype(a.Entry, *spb.AFTEntry_Ipv6) && a.GetIpv6().GetPrefix() == w.GetIpv6().GetPrefix())
+//@   || (istype(w.Entry, *spb.AFTEntry_Mpls) && istype(a.Entry, *spb.AFTEntry_Mpls) && a.GetMpls().GetLabelUint64() == w.GetMpls().GetLabelUint64()
+//@         && istype(a.GetMpls().GetLabel(), *aftpb.Afts_LabelEntryKey_LabelUint64))
+//@   || (istype(w.Entry, *spb.AFTEntry_NextHopGroup) && istype(a.Entry, *spb.AFTEntry_NextHopGroup) && a.GetNextHopGroup().GetId() == w.GetNextHopGroup().GetId())
+//@   || (istype(w.Entry, *spb.AFTEntry_NextHop) && istype(a.Entry, *spb.AFTEntry_NextHop) && a.GetNextHop().GetIndex() == w.GetNextHop().GetIndex()))
+//@ pred foundIn(E []*spb.AFTEntry, n Int, w *spb.AFTEntry) = exists i in 0..n :: satisfies(E[i], w)
+//@ pred v4Sound(m map[string]*spb.AFTEntry, ni string, E []*spb.AFTEntry, n Int) = forall k in dom(m) :: exists i in 0..n ::
+//@   E[i] != nil && E[i].NetworkInstance == ni && istype(E[i].Entry, *spb.AFTEntry_Ipv4) && E[i].GetIpv4().GetPrefix() == k
+//@ pred v6Sound(m map[string]*spb.AFTEntry, ni string, E []*spb.AFTEntry, n Int) = forall k in dom(m) :: exists i in 0..n ::
+//@   E[i] != nil && E[i].NetworkInstance == ni && istype(E[i].Entry, *spb.AFTEntry_Ipv6) && E[i].GetIpv6().GetPrefix() == k
+//@ pred mplsSound(m map[uint64]*spb.AFTEntry, ni string, E []*spb.AFTEntry, n Int) = forall k in dom(m) :: exists i in 0..n ::
+//@   E[i] != nil && E[i].NetworkInstance == ni && istype(E[i].Entry, *spb.AFTEntry_Mpls) && E[i].GetMpls().GetLabelUint64() == k
+//@   && istype(E[i].GetMpls().GetLabel(), *aftpb.Afts_LabelEntryKey_LabelUint64)
+//@ pred nhgSound(m map[uint64]*spb.AFTEntry, ni string, E []*spb.AFTEntry, n Int) = forall k in dom(m) :: exists i in 0..n ::
+//@   E[i] != nil && E[i].NetworkInstance == ni && istype(E[i].Entry, *spb.AFTEntry_NextHopGroup) && E[i].GetNextHopGroup().GetId() == k
+//@ pred nhSound(m map[uint64]*spb.AFTEntry, ni string, E []*spb.AFTEntry, n Int) = forall k in dom(m) :: exists i in 0..n ::
+//@   E[i] != nil && E[i].NetworkInstance == ni && istype(E[i].Entry, *spb.AFTEntry_NextHop) && E[i].GetNextHop().GetIndex() == k
+
+//@ unit GetResponseHasEntries
+//@ requires !fatal && tagof(t) != 0
+//@ requires[wire-valid] forall i in 0..len(getres.GetEntry()) :: getres.GetEntry()[i] != nil && oneofOK(getres.GetEntry()[i].Entry)
+//@    && (getres.GetEntry()[i].GetMpls() != nil ==> oneofOK(getres.GetEntry()[i].GetMpls().Label))
+//@ requires[wants] forall j in 0..len(wants) :: tagof(wants[j]) != 0
+//@ ensures[never-vacuous] !fatal ==> forall j in 0..len(wants) :: foundIn(getres.GetEntry(), len(getres.GetEntry()), entryProtoOf(wants[j]))
+//@ loop 1 at "range getres.GetEntry()" invariant !fatal && netinsts != nil && (forall n in dom(netinsts) :: netinsts[n] != nil && netinsts[n].ipv4 != nil
+//@    && netinsts[n].ipv6 != nil && netinsts[n].mpls != nil && netinsts[n].nhg != nil && netinsts[n].nh != nil
+//@    && netinsts[n].ipv4 != netinsts[n].ipv6 && netinsts[n].mpls != netinsts[n].nhg && netinsts[n].mpls != netinsts[n].nh && netinsts[n].nhg != netinsts[n].nh)
+//@ loop 1 invariant forall n in dom(netinsts) :: v4Sound(netinsts[n].ipv4, n, ranged, loopi) && v6Sound(netinsts[n].ipv6, n, ranged, loopi)
+//@    && mplsSound(netinsts[n].mpls, n, ranged, loopi) && nhgSound(netinsts[n].nhg, n, ranged, loopi) && nhSound(netinsts[n].nh, n, ranged, loopi)
+//@ loop 1 invariant forall a in dom(netinsts), b in dom(netinsts) :: a != b ==> netinsts[a] != netinsts[b] && netinsts[a].ipv4 != netinsts[b].ipv4
+//@    && netinsts[a].ipv4 != netinsts[b].ipv6 && netinsts[a].ipv6 != netinsts[b].ipv6
+//@    && netinsts[a].mpls != netinsts[b].mpls && netinsts[a].mpls != netinsts[b].nhg && netinsts[a].mpls != netinsts[b].nh
+//@    && netinsts[a].nhg != netinsts[b].nhg && netinsts[a].nhg != netinsts[b].nh && netinsts[a].nh != netinsts[b].nh
+//@ loop 1 invariant ranged == getres.GetEntry() && onlyfresh()
+//@ loop 1 invariant fresh(netinsts) && (forall n in dom(netinsts) :: fresh(netinsts[n]) && fresh(netinsts[n].ipv4) && fresh(netinsts[n].ipv6) && fresh(netinsts[n].mpls)
+//@    && fresh(netinsts[n].nhg) && fresh(netinsts[n].nh))
+//@ loop 2 at "range wants" invariant !fatal && (forall j in 0..loopi :: foundIn(getres.GetEntry(), len(getres.GetEntry()), entryProtoOf(wants[j])))
+//@ loop 2 invariant forall n in dom(netinsts) :: netinsts[n] != nil && v4Sound(netinsts[n].ipv4, n, getres.GetEntry(), len(getres.GetEntry())) && v6Sound(netinsts[n].ipv6, n, getres.GetEntry(), len(getres.GetEntry()))
+//@    && mplsSound(netinsts[n].mpls, n, getres.GetEntry(), len(getres.GetEntry())) && nhgSound(netinsts[n].nhg, n, getres.GetEntry(), len(getres.GetEntry())) && nhSound(netinsts[n].nh, n, getres.GetEntry(), len(getres.GetEntry()))
+//@ assigns fatal
+//@ props C17
+
+//@ pred oneofOK(x Iface) = tagof(x) != 0 ==> payload(x) != 0
